@@ -90,7 +90,7 @@ func runWindow(c *lib.Ctx, nd *Node, cs *c10case, r *lib.Rand, events *[]string,
 	for qi := 0; qi < nq; qi++ {
 		a := &qAnswer{}
 		answers[qi] = a
-		kind := r.Intn(5)
+		kind := r.Intn(6)
 		var oldEv string
 		if pre > 0 {
 			oldEv = (*events)[r.Intn(pre)]
@@ -139,6 +139,12 @@ func runWindow(c *lib.Ctx, nd *Node, cs *c10case, r *lib.Rand, events *[]string,
 			case kind == 2 && pre > 0:
 				a.Kind, a.Arg = "consistency", fmt.Sprintf("(%d,%d)", i, j)
 				run(func() (e error) { a.ip, e = nd.N.QueryConsistency(i, j); return })
+			case kind == 5 && pre > 0:
+				// the frontier: the end of the range is the version right after the in-flight bulk (not issued
+				// whichever side wins) or the last in-flight one
+				jf := uint64(pre + k - 1 + r.Intn(3))
+				a.Kind, a.Arg = "consistency-at-frontier", fmt.Sprintf("(%d,%d)", i, jf)
+				run(func() (e error) { a.ip, e = nd.N.QueryConsistency(i, jf); return })
 			case kind == 3 && pre > 0:
 				q := uint64(pre + r.Intn(k)) // a version of the in-flight bulk
 				a.Kind, a.Arg, a.digest = "member-old-at-inflight-version", fmt.Sprintf("%s@%d", oldEv, q), EventDigest([]byte(oldEv))
@@ -265,7 +271,7 @@ func runWindow(c *lib.Ctx, nd *Node, cs *c10case, r *lib.Rand, events *[]string,
 }
 
 func RunC10(c *lib.Ctx) {
-	c.Rule = "case = one window: a single real RaftNode whose injected store blocks the apply path exactly between balloon.AddBulk and the storage write of one bulk (sizes 1-200, positions incl. powers of two) while 8-24 concurrent queries (membership of old events at current and older versions and at in-flight versions, membership of in-flight events, consistency pairs reaching into the in-flight range) run through RaftNode.Query*; after release every answer is classified against the snapshots issued for the versions it names: verified / clean error / internal failure (panic) / mixed state; second pass: unblocked concurrent public-API workload under the race detector; non-trivial = window with >= 4 answers returned; distinct by (prefix size class, bulk size, outcome set)."
+	c.Rule = "case = one window: a single real RaftNode whose injected store blocks the apply path exactly between balloon.AddBulk and the storage write of one bulk (sizes 1-200, positions incl. powers of two) while 8-24 concurrent queries (membership of old events at current and older versions and at in-flight versions, membership of in-flight events, consistency pairs reaching into the in-flight range and to the frontier version after it) run through RaftNode.Query*; after release every answer is classified against the snapshots issued for the versions it names: verified / clean error / internal failure (panic) / mixed state; second pass: unblocked concurrent public-API workload under the race detector; non-trivial = window with >= 4 answers returned; distinct by (prefix size class, bulk size, outcome set)."
 	c.Assume = []string{"blocking happens in the store wrapper, outside every QED lock the unchanged code holds at that point", "race detector observes only executed interleavings"}
 	nNodes := c.Q(3, 12)
 	winPer := c.Q(10, 50)
